@@ -32,6 +32,8 @@ def run(ctx, res):
     r2.rule_conflict_covers_own(S, res, cs)
     r2.rule_check_before_send(S, res, {"pre", "online"}, cs)
     r2.rule_verified(S, res, {"online"}, labs)
+    # the echo round behind the verified broadcast of `masked inputs` (shared with C04)
+    r2.rule_broadcast_impl(S, res)
     import r3
     r2.enrich(S)
     r3.rule_bind_id(S, res)
